@@ -205,7 +205,7 @@ static struct reb_treecell *reb_simulation_update_tree_cell(struct reb_simulatio
             r->particles[oldpos] = r->particles[r->N];
             r->particles[oldpos].c->pt = oldpos;
             if (!isnan(reinsertme.y)){ // Do not reinsert if flagged for removal
-                reb_simulation_add(r, reinsertme);
+                reb_simulation_reinsert_particle(r, reinsertme);
             }
         }
 		free(node);
